@@ -12,7 +12,8 @@ statement).  Monitors, evaluated after every operation of every history:
   * end-of-stream (empty return, StopIteration, end of iteration, unsized read) only with the whole body delivered;
   * server side: every call falcon makes on wsgi.input stays within the remaining Content-Length budget, no byte at
     offset >= Content-Length is consumed; ASGI: the app is never parked on receive() (blocked);
-  * eof / tell() agree with what was returned.
+  * eof / tell() agree with what was returned; once eof was observed True (also on a closed stream) no later
+    operation hands out body bytes.
 """
 
 import asyncio
@@ -308,6 +309,7 @@ def _wsgi_case(rec, cfg, hist):
     over_src, under_src = set(), set()
     api_i = beyond_seen = 0
     closed = False
+    eof_seen = False        # eof was observed True after an earlier operation: nothing may be handed out any more
     for i, (op, (r, eof, api_n, beyond)) in enumerate(zip(hist, ctx.log)):
         findings = []
         # ---- server side: what falcon asked of wsgi.input during this operation
@@ -333,6 +335,7 @@ def _wsgi_case(rec, cfg, hist):
         # ---- what the application got
         k = op[0]
         rec.count('mon.wsgi.op.' + k)
+        ret_before = m.returned
         got = None
         if r[0] == 'exc':
             got = r[1]
@@ -383,6 +386,12 @@ def _wsgi_case(rec, cfg, hist):
                     findings.append(('eof-false-after-content-length-consumed', False, 'consumed %d' % m.cur.pos, None))
             else:
                 findings.append(('eof-raised', False, eof, None))
+        if eof_seen:
+            rec.count('mon.wsgi.eof_is_final')
+            if m.returned > ret_before:
+                findings.append(('bytes-handed-out-after-eof-was-reported', True,
+                                 '%d bytes after eof had been True' % (m.returned - ret_before), None))
+        eof_seen = eof_seen or eof is True
         if m.at_end() and i < len(hist) - 1:
             rec.count('branch.wsgi.op_after_end')
         # ---- report
@@ -640,6 +649,7 @@ def _asgi_case(rec, cfg, hist):
         tell_off = 0
         tell_ok = True
         closed = False
+        eof_seen = False        # eof was observed True after an earlier operation (also on a closed stream)
         abandoned = False       # an iteration was left before it finished: a new iteration may be refused
         armed = False           # ... and it was left right after the final event's body (classifier of K_ABANDON)
         armed_live = False      # the stepped iterator is suspended right after the final event's body
@@ -667,6 +677,7 @@ def _asgi_case(rec, cfg, hist):
             findings = []          # (kind, fatal, detail, key)
             k = op[0]
             cnt('mon.asgi.op.' + k)
+            ret_before = m.returned
             got = None
             reported_end = False
             got_bytes = sum(n for st, n in ctx.deliv if st == i)
@@ -840,6 +851,14 @@ def _asgi_case(rec, cfg, hist):
                         findings.append(('tell-out-of-range-after-exhaust', False,
                                          'tell %d not in [%d, %d]' % (tell, lo + tell_off, hi + tell_off), key))
                         tell_ok = False
+            if eof_seen:
+                cnt('mon.asgi.eof_is_final')
+                if closed:
+                    cnt('mon.asgi.eof_is_final_on_closed_stream')
+                if m.returned > ret_before:
+                    findings.append(('bytes-handed-out-after-eof-was-reported', True,
+                                     '%d bytes after eof had been True' % (m.returned - ret_before), None))
+            eof_seen = eof_seen or eof is True
             if m.at_end() and i < len(hist) - 1:
                 cnt('branch.asgi.op_after_end')
             stop = False
@@ -911,8 +930,8 @@ W_TRAILING = b'XY\nZ'
 A_OPS = [('read', None), ('read', -1), ('read', 0), ('read', 1), ('read', 2), ('read', 100), ('readall',),
          ('iter',), ('iterk', 1, 'exhaust'), ('iterk', 1, 'close'), ('iterk', 1, 'none'), ('iterk', 1, 'break'),
          ('anext',), ('exhaust',), ('close',)]
-A_OPS_PAIRS = [('read', None), ('read', 0), ('read', 1), ('read', 2), ('read', 100), ('iter',), ('iterk', 1, 'exhaust'),
-               ('iterk', 1, 'none'), ('anext',), ('exhaust',), ('close',)]
+A_OPS_PAIRS = [('read', None), ('read', 1), ('read', 2), ('read', 100), ('iter',), ('iterk', 1, 'none'), ('anext',),
+               ('exhaust',), ('close',)]
 A_OPS_TRIPLES = [('read', None), ('read', 1), ('read', 2), ('read', 100), ('iter',), ('iterk', 1, 'none'), ('anext',),
                  ('exhaust',), ('close',)]
 A_OPS_SMALL = [('read', 1), ('read', 2), ('read', 3), ('readall',), ('iter',), ('exhaust',), ('iterk', 2, 'exhaust'),
@@ -1215,7 +1234,7 @@ def run(rec):
                     continue
                 wsgi_case(rec, cfg, h)
                 rec.case(('w', cfg, h) if nontrivial(h) else None)
-            if quick or wi % 2 == 0:
+            if wi % 2 == 0:
                 for h in w_small:
                     idx += 1
                     if idx % rec.nshards != rec.shard:
@@ -1259,12 +1278,12 @@ def run(rec):
                     asgi_case(rec, cfg, h)
                     rec.case(('a', cfg, h))
             # fault part: the j-th receive() awaited by the stream fails (every script with >= 3 events; quick: every
-            # fourth) or is cancelled while parked (every fourth of those), then the application carries on
+            # fifth) or is cancelled while parked (every fourth of those), then the application carries on
             if len(cfg[0]) >= 3:
                 fi += 1
-                if quick and fi % 4:
+                if quick and fi % 5:
                     continue
-                modes = ('raise', 'cancel') if fi % (16 if quick else 4) == 0 else ('raise',)
+                modes = ('raise', 'cancel') if fi % (20 if quick else 4) == 0 else ('raise',)
                 for mode in modes:
                     for j in fault_js:
                         fcfg = cfg + ((j, mode),)
@@ -1283,7 +1302,7 @@ def run(rec):
                  'iterator is suspended; fault part: receive() number j in %r interrupted (raise; cancel on a subset) x '
                  'histories <= 2 over %d shapes on scripts with >= 3 events'
                  % (len(W_BODIES), shorts, len(W_OPS), '' if quick else ', triples over %d shapes' % len(W_OPS_TRIPLES),
-                    3 if quick else 4, len(W_OPS_SMALL), '' if quick else ' on every 2nd configuration', len(A_BODIES),
+                    3 if quick else 4, len(W_OPS_SMALL), ' on every 2nd configuration', len(A_BODIES),
                     'third' if quick else 'second', len(A_OPS), len(A_OPS_PAIRS if quick else A_OPS),
                     '' if quick else ', triples over %d shapes on every 2nd script' % len(A_OPS_TRIPLES),
                     HA + 1, len(A_OPS_SMALL), 32 if quick else 48, len(A_SUSPENDED), fault_js, len(A_OPS_FAULT)))
@@ -1321,7 +1340,8 @@ def run(rec):
                     ('fault.asgi.interrupted.read', 200), ('fault.asgi.interrupted.exhaust', 50),
                     ('fault.asgi.interrupted.iter', 20), ('fault.asgi.interrupted.anext', 20),
                     ('fault.asgi.interrupted_before_anything_was_taken', 50), ('mon.asgi.op.exhaust', 200), ('mon.asgi.liveness', 2000),
-                    ('mon.asgi.eof', 2000), ('mon.asgi.tell', 2000),
+                    ('mon.asgi.eof', 2000), ('mon.asgi.tell', 2000), ('mon.asgi.eof_is_final', 2000),
+                    ('mon.asgi.eof_is_final_on_closed_stream', 300), ('mon.wsgi.eof_is_final', 1000),
                     ('class.asgi.cl.absent', 50), ('class.asgi.cl.exact', 50), ('class.asgi.cl.short', 50),
                     ('class.asgi.cl.long', 50), ('class.asgi.ended_by.disconnect', 100),
                     ('class.asgi.ended_by.open', 50), ('class.asgi.armed_for_blocking', 500),
